@@ -62,7 +62,7 @@ class Sys:
         if id(v) in self.transports:
             return self.transports[id(v)][0]
         if v is suds.store.defaultDocumentStore:
-            return "defaultDocumentStore"
+            return "DocumentStore"
         if type(v).__name__ == "NoCache":
             return "NoCache()"
         return type(v).__name__
@@ -341,6 +341,8 @@ def judge1(ctx, script, S, steps_meta, observed, names, ans):
                 r = reads[k]
                 k += 1
                 vals[nm] = r["value"] if isinstance(r, dict) else r
+                if vals[nm] == "defaultDocumentStore":
+                    vals[nm] = "DocumentStore"      # objects are compared by class (a deep copy is a new object)
             mobs[str(node)] = vals
         ctx.dist["step=" + st["k"]] += 1
         ctx.dist["result=" + res.split(":")[0]] += 1
